@@ -83,7 +83,10 @@ impl<'a> Run<'a> {
                 })
             })
             .collect();
-        json!({"a": "block", "h": self.w.rel(h), "b": b.uid, "txs": txs})
+        // commitments this block adds to each pool's tree (Sapling, Orchard, Ironwood)
+        let prev = self.chain.sizes_at(h - 1);
+        let cm: Vec<u32> = (0..3).map(|i| b.sizes[i] - prev[i]).collect();
+        json!({"a": "block", "h": self.w.rel(h), "b": b.uid, "txs": txs, "cm": cm})
     }
 
     fn block(&mut self, txs: &[TxReq], remined: &[(AbsTx, CompactTx)], check: bool) -> u32 {
@@ -533,12 +536,38 @@ fn retention_scenarios(out: &mut NdjsonWriter, which: &[u32]) {
     }
 }
 
+/// The minimal history of the known finding C06-stale-frontier-after-rewind (DESIGN C06): four
+/// blocks with one wallet output each, scanned one block per call; a rewind to the first; three
+/// different blocks mined and scanned.
+fn stale_frontier_scenario(out: &mut NdjsonWriter) {
+    for &pool in &[Pool::Sapling, Pool::Orchard] {
+        let mut r = Run::new(out, 9000, false, json!(format!("K {}", pool.code())));
+        for i in 0..4u64 {
+            r.recv(pool, 50_000 + i, false);
+            r.tip_top();
+            let top = r.chain.top();
+            r.scan(top, 1);
+        }
+        r.trunc(r.abs(1), true);
+        for i in 0..3u64 {
+            r.recv(pool, 60_000 + i, false);
+        }
+        r.empties(2);
+        r.tip_top();
+        r.scan(r.abs(2), 3);
+        r.scan(r.abs(5), 1);
+        r.scan(r.abs(6), 1);
+    }
+}
+
 fn main() {
     quiet_panics();
     let args: Vec<String> = std::env::args().collect();
     let mut out = NdjsonWriter::create(&args[1]);
     if args[2] == "scenarios" {
         scenarios(&mut out);
+    } else if args[2] == "stale-frontier-scenario" {
+        stale_frontier_scenario(&mut out);
     } else if args[2] == "retention-scenarios" {
         let all = args.get(3).map(|s| s == "all").unwrap_or(false);
         retention_scenarios(&mut out, if all { &[0, 1, 2, 3, 4, 5] } else { &[0, 4] });
